@@ -203,8 +203,8 @@ class Gen:
         rng = self.rng
         w = self.weights
         kinds = [
-            ("new", 6), ("like", 10), ("transport", 18), ("arith", 16 * w.get("arith", 1)), ("scalar", 5), ("eq", 5),
-            ("append", 5), ("concat", 6), ("concat_inverse", 5), ("expand", 4), ("combine", 4), ("reshape_pmap", 4),
+            ("new", 6), ("like", 10), ("transport", 18), ("arith", 16 * w.get("arith", 1)), ("scalar", 5), ("eq", 5), ("eq_magnitude_gap", 2 * w.get("arith", 1)), ("obs_bigint", 1 * w.get("arith", 1)), ("obs_loss_near", 2 * w.get("loss", 1)),
+            ("append", 5), ("concat", 6), ("concat_empty", 2), ("concat_inverse", 5), ("expand", 4), ("combine", 4), ("reshape_pmap", 4),
             ("vector_rt", 4 * w.get("relayout", 1)), ("scalar_rt", 4 * w.get("relayout", 1)), ("images_rt", 3 * w.get("relayout", 1)),
             ("subset", 3), ("get_one", 2), ("copy", 2), ("empty", 1), ("mismatch", 2),
             ("obs_group", 5 * w.get("obs", 1)), ("obs_norm", 3 * w.get("obs", 1)), ("obs_pool", 3 * w.get("obs", 1)),
@@ -291,6 +291,36 @@ class Gen:
             b = c
         self.emit({"op": "eq", "a": a, "b": b})
 
+    def g_eq_magnitude_gap(self):
+        """two multi-images that differ by 0.25 in one entry of a small-magnitude type while another type is ~1e6: the
+        comparison is per type, the big block must not lend its tolerance to the small one"""
+        a = self.pick(lambda r: len(r.blocks) >= 2 and r.max_abs() <= 8)
+        if a is None:
+            return
+        ra = self.refs[a]
+        types = sorted(ra.blocks)
+        big, small = self.rng.sample(types, 2)
+        x, y = self.fresh(), self.fresh()
+        if not self.emit({"op": "copy", "a": a, "out": x}):
+            return
+        self.emit({"op": "setitem", "reg": x, "k": big[0], "p": big[1], "scale": 131072.0, "delta": 0.0})
+        self.emit({"op": "copy", "a": x, "out": y})
+        self.emit({"op": "setitem", "reg": y, "k": small[0], "p": small[1], "scale": 1.0, "delta": 0.25})
+        if self.rng.random() < 0.5:
+            perm = list(range(len(types)))
+            self.rng.shuffle(perm)
+            self.emit({"op": "transport", "reg": y, "kind": "reinsert", "perm": perm})
+        self.emit({"op": "eq", "a": x, "b": y})
+        self.emit({"op": "drop", "reg": x})
+        self.emit({"op": "drop", "reg": y})
+
+    def g_obs_bigint(self):
+        self.emit({"op": "obs_bigint", "vseed": self.rng.getrandbits(24), "types": self.rng.randint(1, 3), "swap": self.rng.random() < 0.5})
+
+    def g_obs_loss_near(self):
+        self.emit({"op": "obs_loss_near", "vseed": self.rng.getrandbits(24), "offset": self.rng.choice([0.0, 30.0, 300.0]), "err": self.rng.choice([1e-2, 1e-1, 1.0]),
+                   "n_steps": self.rng.choice([1, 2]), "swap": self.rng.random() < 0.5})
+
     def g_mismatch(self):
         """operands holding different sets of types must be rejected"""
         a = self.pick(lambda r: len(r.blocks) >= 1)
@@ -370,6 +400,23 @@ class Gen:
             self.rng.shuffle(sig)
             as_dict = axis != nl - 1 or self.rng.random() < 0.5
             self.emit({"op": "concat_inverse", "a": c, "sig": sig, "axis": axis, "as_dict": as_dict, "out_a": self.fresh(), "out_b": self.fresh(), "expect_a": a, "expect_b": out_b})
+
+    def g_concat_empty(self):
+        b = self.pick(lambda r: len(r.blocks) >= 1 and r.n_lead() >= 1)
+        if b is None:
+            return
+        e = self.fresh()
+        if not self.emit({"op": "empty", "a": b, "out": e}):
+            return
+        c = self.fresh()
+        first, second = (e, b) if self.rng.random() < 0.6 else (b, e)
+        if self.emit({"op": "concat", "a": first, "b": second, "axis": 0, "out": c}):
+            # change the result in place: the operand it was built from must not change with it
+            r = self.refs[c]
+            t = self.rng.choice(sorted(r.blocks))
+            shp = list(r.blocks[t].shape)
+            shp[0] = 1
+            self.emit({"op": "append", "reg": c, "k": t[0], "p": t[1], "shape": shp, "axis": 0, "vseed": self.rng.getrandbits(24)})
 
     def g_concat_inverse(self):
         a = self.pick(lambda r: len(r.blocks) >= 1 and r.n_lead() >= 1)
@@ -668,6 +715,20 @@ def _apply_ref(op: dict, refs: dict, D: int) -> bool:
         _need(refs, op["a"])
         refs[op["out"]] = refs[op["a"]].copy()
         return True
+    if o == "setitem":
+        _need(refs, op["reg"])
+        r = refs[op["reg"]]
+        t = (op["k"], op["p"])
+        if t not in r.blocks or r.blocks[t].size == 0:
+            return False
+        nb = (r.blocks[t] * np.float32(op["scale"])).astype(np.float32).copy()
+        nb.reshape(-1)[0] += np.float32(op["delta"])
+        nr = r.copy()
+        nr.blocks[t] = nb
+        refs[op["reg"]] = nr
+        return True
+    if o in ("obs_bigint", "obs_loss_near"):
+        return D >= 1
     if o == "empty":
         _need(refs, op["a"])
         refs[op["out"]] = RefMI({}, D, refs[op["a"]].is_torus)
@@ -714,7 +775,17 @@ def _apply_ref(op: dict, refs: dict, D: int) -> bool:
         _need(refs, op["a"], op["b"])
         a, b = refs[op["a"]], refs[op["b"]]
         ax = op["axis"]
-        if a.is_torus != b.is_torus or a.n_lead() != b.n_lead() or ax >= a.n_lead() or not a.blocks or not b.blocks:
+        if a.is_torus != b.is_torus:
+            return False
+        if not a.blocks or not b.blocks:
+            # concatenating with an empty multi-image (the reduce(..., ls[0].empty()) pattern): a new object with the
+            # blocks of the non-empty side; needs axis 0 semantics only (nothing is concatenated)
+            src = b if not a.blocks else a
+            if not src.blocks or ax >= max(src.n_lead(), 1):
+                return False
+            refs[op["out"]] = RefMI(dict(src.blocks), D, a.is_torus)
+            return True
+        if a.n_lead() != b.n_lead() or ax >= a.n_lead():
             return False
         if a.spatial() != b.spatial():
             return False
@@ -1050,7 +1121,7 @@ PROP_OF = {
     "transport": ("C13", "transport"), "copy": ("C13", "copy"), "empty": ("C13", "empty"), "vector_rt": ("C13", "vector_roundtrip"), "scalar_rt": ("C13", "scalar_roundtrip"),
     "images_rt": ("C13", "images_roundtrip"), "concat": ("C13", "concat"), "concat_inverse": ("C13", "concat_inverse"), "expand": ("C13", "expand"),
     "combine_axes": ("C13", "combine_axes"), "merge_axes": ("C13", "merge_axes"), "reshape_pmap": ("C13", "reshape_pmap"),
-    "new": ("C13", "construct"), "new_shaped": ("C13", "construct"), "append": ("C13", "append"), "get_subset": ("C13", "subset"), "get_one": ("C13", "subset"),
+    "new": ("C13", "construct"), "new_shaped": ("C13", "construct"), "append": ("C13", "append"), "setitem": ("C13", "setitem"), "obs_bigint": ("C12", "integer_arithmetic"), "obs_loss_near": ("C18", "definition_near_target"), "get_subset": ("C13", "subset"), "get_one": ("C13", "subset"),
     "drop": ("C13", "aliasing"), "obs_group": ("C14", "group_action"), "obs_norm": ("C14", "norm"), "obs_pool": ("C14", "average_pool"),
     "obs_component": ("C14", "get_component"), "obs_batch_component": ("C14", "batch_get_component"), "obs_images": ("C14", "to_images"), "loss": ("C18", "loss"),
 }
@@ -1063,7 +1134,7 @@ def _run_real(op, regs, refs_after, D, bump, viol, log):
 
     def fail(clause, detail, prop=None):
         viol(prop or pc[0], clause, detail, _site(op, regs, refs_after))
-        if o.startswith("obs_") or o in ("loss", "eq"):
+        if o.startswith("obs_") or o in ("loss", "eq"):  # observers leave the registers alone
             raise _ObserverFailed()  # registers are untouched: the history goes on
         raise _Stop()
 
@@ -1149,6 +1220,35 @@ def _run_real(op, regs, refs_after, D, bump, viol, log):
         m = regs[op["reg"]]
         blk = jnp.asarray(block_values(op["vseed"], (op["k"], op["p"]), tuple(op["shape"])))
         guarded(lambda: m.append(op["k"], op["p"], blk, axis=op["axis"]), "append")
+    elif o == "setitem":
+        m = regs[op["reg"]]
+        t = (op["k"], op["p"])
+
+        def f():
+            blk = m[t] * np.float32(op["scale"])
+            blk = blk.reshape(-1).at[0].add(np.float32(op["delta"])).reshape(blk.shape)
+            m[t] = blk
+
+        guarded(f, "setitem")
+    elif o == "obs_bigint":
+        # integer blocks far beyond 2^24: + and - must be exact integer arithmetic, block by block
+        rs = np.random.RandomState(op["vseed"])
+        types = [(0, 0), (0, 1), (1, 0)][: op["types"]] if D >= 2 else [(0, 0), (0, 1)][: min(op["types"], 2)]
+        sp = (2,) * D
+        av = {t: (2_000_000_000 + rs.randint(0, 1000, size=(2,) + sp + (D,) * t[0])).astype(np.int32) for t in types}
+        bv = {t: (1_999_999_000 + rs.randint(0, 1000, size=(2,) + sp + (D,) * t[0])).astype(np.int32) for t in types}
+        a = geom.MultiImage({t: jnp.asarray(v) for t, v in av.items()}, D, True)
+        order = list(reversed(types)) if op["swap"] else types
+        b = geom.MultiImage({t: jnp.asarray(bv[t]) for t in order}, D, True)
+        bump("obs_bigint")
+        diff = guarded(lambda: a - b, "sub")
+        for t in types:
+            want = av[t].astype(np.int64) - bv[t].astype(np.int64)
+            got = np.asarray(diff[t]).astype(np.float64)
+            if not np.array_equal(got, want.astype(np.float64)):
+                fail("integer_arithmetic", {"op": "sub", "type": list(t), "dtype": str(np.asarray(diff[t]).dtype), "first_got": float(got.reshape(-1)[0]), "first_want": int(want.reshape(-1)[0])})
+    elif o == "obs_loss_near":
+        _loss_near(op, D, bump, fail, guarded)
     elif o == "concat":
         a, b = regs[op["a"]], regs[op["b"]]
         regs[op["out"]] = guarded(lambda: a.concat(b, axis=op["axis"]), "concat")
@@ -1415,6 +1515,30 @@ def _loss_check(op, regs, refs, D, bump, fail, guarded):
         tie = which == "timestep" and reduce == "max" and want is None
         if not tie and not _close(got_g, got):
             fail("group_invariance", {**detail, "g": gg.tolist(), "before": got.tolist(), "after": got_g.tolist()}, "C18")
+
+
+def _loss_near(op, D, bump, fail, guarded):
+    """prediction close to the target on data with a large offset (non-integer values): the squared error must be
+    computed from the difference, not from an expansion that cancels in float32"""
+    rs = np.random.RandomState(op["vseed"])
+    types = [(0, 0), (1, 0)] if D >= 2 else [(0, 0)]
+    B, C, sp, n_steps = 2, 2, (4,) * D, op["n_steps"]
+    tgt = {t: (op["offset"] + rs.normal(size=(B, C) + sp + (D,) * t[0])).astype(np.float32) for t in types}
+    prd = {t: (tgt[t] + op["err"] * rs.normal(size=tgt[t].shape)).astype(np.float32) for t in types}
+    y = geom.MultiImage({t: jnp.asarray(v) for t, v in tgt.items()}, D, True)
+    order = list(reversed(types)) if op["swap"] else types
+    x = geom.MultiImage({t: jnp.asarray(prd[t]) for t in order}, D, True)
+    ra, rb = RefMI(prd, D, (True,) * D), RefMI(tgt, D, (True,) * D)
+    per_entry, per_step, normalized = _ref_losses(ra, rb, D, n_steps)
+    bump("obs_loss_near")
+    checks = [
+        ("smse", np.asarray(guarded(lambda: ml.smse_loss(x, y, reduce=None), "loss")), per_entry),
+        ("timestep", np.asarray(guarded(lambda: ml.timestep_smse_loss(x, y, n_steps, reduce=None), "loss")), per_step),
+        ("normalized", np.asarray(guarded(lambda: ml.normalized_smse_loss(x, y), "loss")), normalized.mean()),
+    ]
+    for name, got, want in checks:
+        if not _close(got, want, rel=2e-3) or np.any(got < 0):
+            fail("definition_near_target", {"which": name, "offset": op["offset"], "err": op["err"], "got": np.asarray(got).tolist(), "want": np.asarray(want).tolist()}, "C18")
 
 
 # --------------------------------------------------------------------------- shrinking
